@@ -724,6 +724,12 @@ def delete_raggedarray(ra):
     try:
         if not isinstance(ra, RaggedArray):
             ra = RaggedArray(ra, accessmode='r+')
+        else:
+            # the object may have outlived the ragged array it was opened on
+            RaggedArray(ra.path)
+        d = ra._datadir.read_jsondict(ra._arraydescrfilename)
+        if d.get('darrobject', 'RaggedArray') != 'RaggedArray':
+            raise TypeError(f"'{ra.path}' holds a {d['darrobject']}")
     except:
         raise TypeError(f"'{ra}' not recognized as a Darr ragged array")
 
